@@ -274,7 +274,7 @@ type Call struct {
 	lag                *reqCtx // the call runs under the application's shared request context
 	retry              bool    // FlagRetry
 	attempt            int
-	repick             bool    // FlagRepick
+	repick             bool // FlagRepick
 	pendingRepick      bool
 	released, abandon  bool
 	repickW            kern.Waiter
@@ -330,40 +330,41 @@ type Sim struct {
 	model *Model
 	res   *simkit.Result
 
-	callerCfg    *grpcgcp.GCPBalancerConfig
-	cfgSnap      *pb.ApiConfig
-	cfg2         *grpcgcp.GCPBalancerConfig
-	drained      int
-	opIdx        int
-	coreQueued   int
-	healing      bool
-	markOK       bool
-	markSeq      int
-	markCalls    int
-	markLoad     []int
-	lastCallCtx  context.Context
-	degraded     bool // a SHUTDOWN for a live pool connection was delivered: crash/progress oracles only
-	overlap      bool // the operation just started was left running (FlagOverlap): no quiescence checks before the next one
-	overlapOpen  bool // operations were left running and the one that ends the overlap has not been executed yet
-	resolverSent bool
-	keySeq       uint64
-	conc         bool // currently executing concurrently (burst); false in serial plans and after the burst
-	stop         bool
-	addrSets     [][]resolver.Address
-	nConnErr     int
-	twinBal      balancer.Balancer // plan.TwinStart: a second balancer configured from the same JSON
-	twinCC       *FakeCC
-	twinCfg      serviceconfig.LoadBalancingConfig
-	twinSent     bool
-	dynT         reflect.Type // plan.DynMsg: message type made for this run
-	nRepicks     int
-	nRetries     int
-	req          *reqCtx  // the application's current request-scoped context
-	burstBound   []string // keys the concurrent burst certainly bound (enterSerial)
-	addrMaster   []resolver.Address
-	addrWin      [][2]int
-	addrWant     []string
-	Opts         Options
+	callerCfg                   *grpcgcp.GCPBalancerConfig
+	cfgSnap                     *pb.ApiConfig
+	cfg2                        *grpcgcp.GCPBalancerConfig
+	drained                     int
+	opIdx                       int
+	coreQueued                  int
+	healing                     bool
+	markOK                      bool
+	markSeq                     int
+	markCalls                   int
+	markLoad                    []int
+	lastCallCtx                 context.Context
+	degraded                    bool // a SHUTDOWN for a live pool connection was delivered: crash/progress oracles only
+	overlap                     bool // the operation just started was left running (FlagOverlap): no quiescence checks before the next one
+	overlapOpen                 bool // operations were left running and the one that ends the overlap has not been executed yet
+	resolverSent                bool
+	keySeq                      uint64
+	conc                        bool // currently executing concurrently (burst); false in serial plans and after the burst
+	stop                        bool
+	addrSets                    [][]resolver.Address
+	nConnErr                    int
+	twinBal                     balancer.Balancer // plan.TwinStart: a second balancer configured from the same JSON
+	twinCC                      *FakeCC
+	twinCfg                     serviceconfig.LoadBalancingConfig
+	twinSent                    bool
+	dynT                        reflect.Type // plan.DynMsg: message type made for this run
+	nRepicks                    int
+	nRetries                    int
+	nStreamRetries, nHalfClosed int
+	req                         *reqCtx  // the application's current request-scoped context
+	burstBound                  []string // keys the concurrent burst certainly bound (enterSerial)
+	addrMaster                  []resolver.Address
+	addrWin                     [][2]int
+	addrWant                    []string
+	Opts                        Options
 }
 
 // Options of a run that are not part of the plan.
@@ -1151,7 +1152,7 @@ func sameLengthVariant(js []byte) []byte {
 			inStr = !inStr
 		case !inStr && c >= '0' && c <= '9':
 			v := append([]byte(nil), js...)
-			v[i] = '0' + (c-'0')^1
+			v[i] = '0' + (c - '0') ^ 1
 			if v[i] == '0' && i+1 < len(js) && js[i+1] >= '0' && js[i+1] <= '9' {
 				v[i] = '2' + (c-'0')%2 // no leading zero
 			}
@@ -1652,7 +1653,7 @@ func (s *Sim) startCall(i int, o Op) {
 	}
 	c.tag = &TaskTag{Op: i, Phase: PhPick, Call: c.ID}
 	c.repick = o.F&FlagRepick != 0 && !c.Stream
-	c.retry = o.F&FlagRetry != 0 && !c.Stream
+	c.retry = o.F&FlagRetry != 0
 	c.RepickOf = -1
 	c.repickW.Note = fmt.Sprintf("call %d waits for a newer picker", c.ID)
 	s.calls = append(s.calls, c)
@@ -1746,14 +1747,18 @@ func (s *Sim) callBody(c *Call) {
 	case c.NoGCP:
 		_ = invoker(c.ctx, c.MethodName, req, reply, nil)
 	case c.Stream:
+		var sctx context.Context // what the interceptor handed to the streamer: the context of every pick of this RPC
+		var cs grpc.ClientStream
 		streamer := func(ctx context.Context, desc *grpc.StreamDesc, cc *grpc.ClientConn, method string, opts ...grpc.CallOption) (grpc.ClientStream, error) {
+			sctx = ctx
 			if err := s.pick(ctx, c); err != nil {
 				return nil, err
 			}
 			return &fakeStream{ctx: ctx}, nil
 		}
 		note := s.guard(func() {
-			cs, err := grpcgcp.GCPStreamClientInterceptor(c.ctx, &grpc.StreamDesc{ClientStreams: c.ID%4 < 2, ServerStreams: c.ID%2 == 1}, nil, c.MethodName, streamer)
+			var err error
+			cs, err = grpcgcp.GCPStreamClientInterceptor(c.ctx, &grpc.StreamDesc{ClientStreams: c.ID%4 < 2, ServerStreams: c.ID%2 == 1}, nil, c.MethodName, streamer)
 			if err == nil {
 				err = cs.SendMsg(req)
 			}
@@ -1763,7 +1768,23 @@ func (s *Sim) callBody(c *Call) {
 			c.Res = PickRes{Kind: ResPanic, Err: "in stream interceptor"}
 		}
 		if c.Res.Kind == ResPlaced {
-			s.waitAndComplete(c)
+			err := s.waitAndComplete(c)
+			if (err != nil || c.Outcome == OutRepick) && c.retry && sctx != nil && cs != nil && !s.healing && !s.stop && sctx.Err() == nil {
+				// gRPC attempts the streaming call again before any response arrived
+				// (transparent retry): the application may have half-closed the stream by
+				// then; the new attempt is picked with the very same context
+				if c.ID%2 == 0 {
+					s.guard(func() { _ = cs.CloseSend() })
+					s.nHalfClosed++ // (plain counters: this runs on a task, the Fired map is the scheduler's)
+				}
+				n := s.cloneForPick(c)
+				n.attempt = 1
+				s.nRetries++
+				s.nStreamRetries++
+				if s.pick(sctx, n) == nil {
+					_ = s.waitAndComplete(n)
+				}
+			}
 		}
 	default:
 		note := s.guard(func() {
@@ -2613,6 +2634,8 @@ func (s *Sim) finish() {
 	res := s.res
 	res.Count("fault:call_told_to_wait_picked_again_with_the_same_context", s.nRepicks)
 	res.Count("fault:failed_call_attempted_again_with_the_same_context", s.nRetries)
+	res.Count("fault:stream_call_attempted_again_with_the_same_context", s.nStreamRetries)
+	res.Count("fault:stream_half_closed_before_retry", s.nHalfClosed)
 	res.Steps = int(k.Steps())
 	res.SimNanos = int64(k.Elapsed())
 	res.Fingerprint = k.Fingerprint
